@@ -22,10 +22,23 @@ def run(ctx, proof):
     if proof["ok"]:
         corr, cfail = common.check_case_files(ctx, data["files"], "run_program (Model/Sched.v) vs Program.run",
                                               describe=lambda i, a: descr[i])
+    corrs = [corr]
+    if proof["ok"] and data.get("resume_files"):
+        rd = data["resume_descr"]
+        c2, f2 = common.check_case_files(ctx, data["resume_files"], "run_program started from the partial state a failed run left behind (C01_resume) vs the run that follows on the real program",
+                                         describe=lambda i, a: rd[i] if i < len(rd) else i)
+        corrs.append(c2)
+        cfail += f2
+    if proof["ok"] and data.get("failed_files"):
+        fd = data["failed_descr"]
+        c3, f3 = common.check_case_files(ctx, data["failed_files"], "run_programf with the failing commands (Model/SchedFail.v) vs the state a failed run leaves on the real program and the command that failed",
+                                         describe=lambda i, a: fd[i] if i < len(fd) else i)
+        corrs.append(c3)
+        cfail += f3
     want = ctx.prop + ":"
     extra = ("C02:",) if ctx.prop == "C01" else ()
     # a driver run observes facts of C01, C02 and C14 at once; each check reports the ones that are its own
     mine = [f for f in data["oracle_failures"] if f["sig"].startswith((want,) + extra)]
-    return {"corr": [corr], "corr_failures": cfail, "oracle_failures": mine,
+    return {"corr": corrs, "corr_failures": cfail, "oracle_failures": mine,
             "evaluations": data["evaluations"], "distinct_nontrivial": data["distinct_nontrivial"],
             "rule": RULE, "samples": data["samples"], "distribution": data["distribution"]}
